@@ -20,6 +20,11 @@ Theorem C20_pairs_partial : all_pairs_ok all_headers known_pair = true.
 Proof. vm_compute. reflexivity. Qed.
 Theorem C20_includes_first : forallb (fun u => negb (h_inc_late u)) all_headers = true.
 Proof. vm_compute. reflexivity. Qed.
+(* no header leaves compiler or preprocessor state behind that would change the meaning of headers included after it
+   (structure packing that is not restored, push_macro/pop_macro, #undef of a name it did not define): the unit
+   model above knows names and tokens, not layout, so this regenerated fact is what excludes layout interference *)
+Theorem C20_no_state_leak : forallb (fun u => negb (h_state_leak u)) all_headers = true.
+Proof. vm_compute. reflexivity. Qed.
 
 (* ... which suffices for EVERY subset of the headers in EVERY order (any list of distinct headers closed under #include
    that does not contain the known pair): no name or tag is introduced twice, and every identifier a header mentions is
